@@ -73,7 +73,9 @@ def World.micro (w : World) (m : Micro) : Except Err World :=
   | .condense l n label =>
     match w.labs[l]? with
     | none => .error .reject
-    | some L => .ok (w.setLab l (L.condenseLog n label))
+    | some L => match L.condenseLog n label with
+      | .ok L' => .ok (w.setLab l L')
+      | .error e => .error e
   | .emit r => .ok { w with recs := w.recs ++ [r] }
   | .setDiti i =>
     let allowed := match w.recs.getLast? with
